@@ -7,6 +7,7 @@ package c07
 
 import (
 	"encoding/json"
+	"os"
 	"sort"
 	"strings"
 )
@@ -51,10 +52,27 @@ func canonRequirements(s string) string {
 
 // canonicalise applies the recorded canonicalisations to an artefact set (in place) and reports which
 // were applied (labels "masked:<finding>").
-func canonicalise(arte map[string]string) (labels []string) {
+func canonicalise(tool string, arte map[string]string) (labels []string) {
+	// All four recorded mechanisms (D3, F-REQ, F-CLUSTER, F-GO-REQ) have been repaired in /repo (see
+	// known_findings.json): nothing is canonicalised any more, every artefact is compared byte for byte.
+	// C07_MASK=1 re-enables the canonicalisations (development aid for looking behind a regression).
+	if os.Getenv("C07_MASK") == "" {
+		// development aid: run the generated search with every canonicalisation off (used to validate the
+		// proposed repairs in a scratch worktree: with them applied the search must stay green unmasked)
+		return nil
+	}
 	seen := map[string]bool{}
 	for k, v := range arte {
 		switch {
+		case tool == "bondgo" && strings.HasSuffix(k, ":stdout") && strings.Contains(v, "--- Processors ---"):
+			arte[k] = canonShowRequirements(v)
+			seen["masked:F-GO-REQ"] = true
+		case strings.HasSuffix(k, ".bmeta"):
+			arte[k] = canonBmeta(v)
+			seen["masked:F-CLUSTER"] = true
+		case strings.HasSuffix(k, "cluster.json"):
+			arte[k] = canonClusterJSON(v)
+			seen["masked:F-CLUSTER"] = true
 		case strings.HasSuffix(k, "requirements.json"):
 			arte[k] = canonRequirements(v)
 			seen["masked:F-REQ"] = true
@@ -72,8 +90,73 @@ func canonicalise(arte map[string]string) (labels []string) {
 	return
 }
 
+// ---- F-GO-CHAN (found by this check, repaired in /repo by c2bb434): bondgo -mpm attached the channels to the
+// processors by ranging over the map BondgoRequirements.Chanr (pkg/bondgo/converter.go:199), so the order of every
+// processor's Shared_links list — which numbers its ch0, ch1, … — changed from run to run. Nothing is masked for it any
+// more; /verif/replays/C07/f-go-chan-bondgo-mpm-shared-links.json is the regression case.
+
+// ---- F-GO-REQ: `bondgo -show-requirements` prints Dump_Requirements, a walk over the maps Procr/IOr/Chanr
+// (pkg/bondgo/requirements.go:152,157,162). Canonical form: the lines of that stdout as a sorted multiset.
+func canonShowRequirements(s string) string {
+	lines := strings.Split(s, "\n")
+	sort.Strings(lines)
+	return strings.Join(lines, "\n")
+}
+
+// ---- F-CLUSTER: the clustered outputs of basm (`-co cluster.json -oprefix edge`): pkg/basm/cluster.go writes every
+// `%meta` line of the per-device .bmeta sources by ranging over the element's metadata map (LoopMeta, lines 105,
+// 122, 169-…), the global metadata lines likewise, and appends the peers of cluster.json while ranging over the map
+// clusteredNames (line 71). Canonical forms: .bmeta = key:value items of every %meta line sorted and the leading block of
+// `%meta bmdef global` lines sorted (line order otherwise kept); cluster.json = peers sorted by PeerId.
+func canonBmeta(s string) string {
+	lines := strings.Split(s, "\n")
+	for i, l := range lines {
+		f := strings.SplitN(l, " ", 4)
+		if len(f) == 4 && f[0] == "%meta" {
+			items := strings.Split(f[3], ", ")
+			for j := range items {
+				items[j] = strings.TrimSuffix(strings.TrimSpace(items[j]), ",")
+			}
+			sort.Strings(items)
+			lines[i] = strings.Join(f[:3], " ") + " " + strings.Join(items, ", ")
+		}
+	}
+	// the leading block of `%meta bmdef global k:v` lines (one per key of the global metadata map)
+	n := 0
+	for n < len(lines) && strings.HasPrefix(lines[n], "%meta bmdef global ") {
+		n++
+	}
+	sort.Strings(lines[:n])
+	return strings.Join(lines, "\n")
+}
+
+func canonClusterJSON(s string) string {
+	var c struct {
+		ClusterId uint32
+		Peers     []struct {
+			PeerId   uint32
+			PeerName string
+			Channels []uint32
+			Inputs   []uint32
+			Outputs  []uint32
+		}
+	}
+	if err := json.Unmarshal([]byte(s), &c); err != nil {
+		return s
+	}
+	sort.SliceStable(c.Peers, func(a, b int) bool { return c.Peers[a].PeerId < c.Peers[b].PeerId })
+	b, _ := json.Marshal(c)
+	return string(b)
+}
+
 func knownMechanism(tool, desc string) string {
 	switch {
+	case strings.Contains(desc, ".bmeta") || strings.Contains(desc, "cluster.json"):
+		return "F-CLUSTER:basm-cluster-output-map-order"
+	case tool == "bondgo" && strings.Contains(desc, "bm.json") && strings.Contains(desc, "Shared_links"):
+		return "F-GO-CHAN:bondgo-mpm-shared-links-map-order"
+	case tool == "bondgo" && strings.Contains(desc, ":stdout"):
+		return "F-GO-REQ:bondgo-show-requirements-map-order"
 	case strings.Contains(desc, "requirements.json"):
 		return "F-REQ:requirements-dump-map-order"
 	case tool == "neuralbond" && strings.Contains(desc, "out.basm") && strings.Contains(desc, "fragcollapse:"):
